@@ -288,6 +288,14 @@ def run_case(case):
                             gap, phis, obs["gap_rel"], tol, eff, app.alg.iter, obs["dist"]),
                         wit, mech="suboptimal:" + eff, obs=obs)
     checks = 1
+    if not obs["y_unchanged"]:
+        # the documented objective is stated in terms of the y the caller holds: if the solve
+        # overwrote that array, the returned x is not the minimiser for the caller's data any
+        # more and a second solve from the same array solves another problem
+        return violated(sig, "LinearLeastSquares (%s) overwrote the caller's data array y "
+                        "(changed by %.3g): the returned x does not minimise the objective of "
+                        "the data the caller now holds" % (eff, nrm(y - y_keep)), wit,
+                        mech="caller-y-modified:" + eff, obs=obs)
     if sum(case["rs"]) % 5 == 0 and eff in ("GradientMethod", "PrimalDualHybridGradient",
                                              "ConjugateGradient"):
         # the same operator objects (A, G, proxg) in a second problem with a much larger
